@@ -422,7 +422,7 @@ func c8histString(h []c8op) string {
 // c8histories: breadth-first search, split into one unit per history prefix of length 2 so that the
 // subtrees are explored by different worker processes (each with its own visited set).
 func c8histories(tier string) []mc.Unit {
-	depth := tier2(tier, 5, 7)
+	depth := tier2(tier, 5, 6)
 	var roots [][]c8op
 	st0, _ := c8replay(nil, nil, false)
 	for _, o1 := range c8successors(st0) {
@@ -503,7 +503,7 @@ func c8schedules(tier string) []mc.Unit {
 	}
 	scens := []scen{{"two-tasks", []int{1, 11}, []string{"ATGAAA", "TTTATG"}, tier2(tier, 1, 2)}}
 	if tier == "thorough" {
-		scens = append(scens, scen{"three-tasks", []int{1, 2, 11}, []string{"ATGAAA", "TTTATG", "GGGATG"}, 2})
+		scens = append(scens, scen{"three-tasks", []int{1, 2, 11}, []string{"ATG", "TTT", "GGG"}, 2})
 	} else {
 		scens = append(scens, scen{"three-tasks", []int{1, 2, 11}, []string{"ATG", "TTT", "GGG"}, 1})
 	}
